@@ -293,3 +293,113 @@ func interprocFacts(at ssa.Instruction, local []Fact) []Fact {
 }
 
 func isErrorType(t types.Type) bool { return t.String() == "error" }
+
+// GuidedReach reports whether target can execute in fn under a partial valuation of boolean conditions: leaf decides
+// the truth of a comparison (known=false: undetermined, both branches are explored); constants, negations and boolean
+// phis (evaluated for the edge actually taken) are handled here. It answers "is there a path to target that is
+// consistent with the valuation" and is insensitive to how the conditions are written (hoisted into variables,
+// De Morgan, switch, nested ifs).
+func GuidedReach(fn *ssa.Function, target ssa.Instruction, leaf func(v ssa.Value) (val, known bool)) bool {
+	if len(fn.Blocks) == 0 {
+		return false
+	}
+	// boolean phis of the function, numbered
+	var phis []*ssa.Phi
+	for _, b := range fn.Blocks {
+		for _, in := range b.Instrs {
+			if p, ok := in.(*ssa.Phi); ok {
+				if bt, ok := p.Type().Underlying().(*types.Basic); ok && bt.Kind() == types.Bool {
+					phis = append(phis, p)
+				}
+			}
+		}
+	}
+	phiIdx := map[*ssa.Phi]int{}
+	for i, p := range phis {
+		phiIdx[p] = i
+	}
+	// env: per phi 0 unknown, 1 false, 2 true (as a string for memoisation)
+	type state struct {
+		b, prev *ssa.BasicBlock
+		env     string
+	}
+	var eval func(v ssa.Value, env []byte, d int) (bool, bool)
+	eval = func(v ssa.Value, env []byte, d int) (bool, bool) {
+		if d > 8 {
+			return false, false
+		}
+		switch x := v.(type) {
+		case *ssa.Const:
+			if x.Value != nil && (x.Value.String() == "true" || x.Value.String() == "false") {
+				return x.Value.String() == "true", true
+			}
+		case *ssa.UnOp:
+			if x.Op == token.NOT {
+				r, k := eval(x.X, env, d+1)
+				return !r, k
+			}
+		case *ssa.Phi:
+			if i, ok := phiIdx[x]; ok && env[i] != 0 {
+				return env[i] == 2, true
+			}
+			return false, false
+		}
+		return leaf(v)
+	}
+	seen := map[state]bool{}
+	work := []state{{fn.Blocks[0], nil, string(make([]byte, len(phis)))}}
+	for len(work) > 0 {
+		s := work[len(work)-1]
+		work = work[:len(work)-1]
+		if seen[s] {
+			continue
+		}
+		seen[s] = true
+		env := []byte(s.env)
+		// phis of this block take the value of the edge we came in by
+		if s.prev != nil {
+			for _, in := range s.b.Instrs {
+				p, ok := in.(*ssa.Phi)
+				if !ok {
+					break
+				}
+				i, isBool := phiIdx[p]
+				if !isBool {
+					continue
+				}
+				env[i] = 0
+				for k, pr := range s.b.Preds {
+					if pr == s.prev {
+						if val, known := eval(p.Edges[k], []byte(s.env), 0); known {
+							if val {
+								env[i] = 2
+							} else {
+								env[i] = 1
+							}
+						}
+					}
+				}
+			}
+		}
+		for _, in := range s.b.Instrs {
+			if in == target {
+				return true
+			}
+		}
+		last := s.b.Instrs[len(s.b.Instrs)-1]
+		if iff, ok := last.(*ssa.If); ok && len(s.b.Succs) == 2 {
+			if val, known := eval(iff.Cond, env, 0); known {
+				if val {
+					work = append(work, state{s.b.Succs[0], s.b, string(env)})
+				} else {
+					work = append(work, state{s.b.Succs[1], s.b, string(env)})
+				}
+				continue
+			}
+		}
+		for _, n := range s.b.Succs {
+			work = append(work, state{n, s.b, string(env)})
+		}
+	}
+	return false
+}
